@@ -282,6 +282,9 @@ class Ombott:
             finally:
                 self.emit('after_request')
         except HTTPResponse as resp:
+            # a raised response is an answer, not a failure: an application may keep the object and raise it
+            # again, so the frames (and the environ) of this request must not pile up on it
+            resp.__traceback__ = None
             return resp
         except (KeyboardInterrupt, SystemExit, MemoryError):
             raise
@@ -349,6 +352,7 @@ class Ombott:
             except StopIteration:
                 out = ''; continue                               # -----------------^
             except HTTPResponse as rs:
+                rs.__traceback__ = None
                 first = rs
             except (KeyboardInterrupt, SystemExit, MemoryError):
                 raise
